@@ -61,6 +61,10 @@ Theorem C01_up_sim_identity : forall A B fuel b, up_worklist_sim N.eqb A B fuel 
 Proof. exact up_worklist_sim_identity. Qed.
 Theorem C01_up_sim_hypothesis_decidable : forall le B, upsim_b le B = true -> UpSim le B.
 Proof. exact upsim_b_sound. Qed.
+(* the same run with the greatest relation the model computes on the bigger automaton (by refinement from "final states upward closed"),
+   used only when it passes the decidable hypothesis check: whatever it answers is the decider's verdict *)
+Theorem C01_up_sim_model_refines : forall fuel A B b, up_sim_model fuel A B = Some b -> b = incl_dec A B.
+Proof. exact up_sim_model_refines. Qed.
 (* non-vacuity: a relation that is not the identity satisfies the hypothesis, the runs end, minimisation really removes a state *)
 Example C01_up_sim_example : UpSim us_le us_B /\ us_le 1 2 = true /\ us_le 2 1 = false /\
   up_worklist_sim us_le us_A us_B 20 = Some true /\ up_worklist_sim us_le us_A2 us_B 20 = Some false /\
@@ -152,3 +156,4 @@ Print Assumptions C01_up_sim_exact.
 Print Assumptions C01_up_sim_identity.
 Print Assumptions C01_up_sim_hypothesis_decidable.
 Print Assumptions C01_up_sim_example.
+Print Assumptions C01_up_sim_model_refines.
